@@ -30,6 +30,14 @@
 // sub-slice of the input at all.  A panic is "PANIC <kind>".
 // After the call the two whole backing arrays (guards, input, spare capacity) are printed:
 // EditScript must not modify them.
+//
+//	A <mode> <arr> <lo1> <hi1> <lo2> <hi2> <c> | <edits> / <arr after> / <arr after>
+//
+// Both arguments are views of ONE backing array (a private copy of arr): lhs = arr[lo1:hi1],
+// rhs = arr[lo2:hi2] -- identical, nested, same start with different lengths (rhs := lhs[:k]),
+// shifted, overlapping or disjoint.  c = 0: natural capacity (up to the end of arr); c = 1:
+// cap = len (three-index slices).  The result must depend on the VALUES of the two arguments only;
+// the model is given lhs, rhs and what follows each in arr as its spare capacity.
 package main
 
 import (
@@ -85,16 +93,38 @@ func window(s, extra []int, guard int) (arr, win []int) {
 
 func exec(in string) string {
 	f := strings.Fields(strings.ReplaceAll(in, "_", " ")) // "_" for blanks: inputs reported by the extra steps
-	if (len(f) != 4 && len(f) != 6) || f[0] != "E" {
+	var mode int
+	var larr, lhs, rarr, rhs []int
+	switch {
+	case len(f) == 8 && f[0] == "A":
+		mode, _ = strconv.Atoi(f[1])
+		src := tr.UnInts(f[2])
+		arr := make([]int, len(src)) // exact capacity (append may round up)
+		copy(arr, src)
+		var b [5]int
+		for i := range b {
+			b[i], _ = strconv.Atoi(f[3+i])
+		}
+		if !(0 <= b[0] && b[0] <= b[1] && b[1] <= len(arr) && 0 <= b[2] && b[2] <= b[3] && b[3] <= len(arr)) {
+			return "?"
+		}
+		if b[4] == 1 {
+			lhs, rhs = arr[b[0]:b[1]:b[1]], arr[b[2]:b[3]:b[3]]
+		} else {
+			lhs, rhs = arr[b[0]:b[1]], arr[b[2]:b[3]]
+		}
+		larr, rarr = arr, arr
+	case (len(f) == 4 || len(f) == 6) && f[0] == "E":
+		mode, _ = strconv.Atoi(f[1])
+		lx, rx := []int{777, 777, 777}, []int{888, 888, 888}
+		if len(f) == 6 {
+			lx, rx = tr.UnInts(f[4]), tr.UnInts(f[5])
+		}
+		larr, lhs = window(tr.UnInts(f[2]), lx, guardL)
+		rarr, rhs = window(tr.UnInts(f[3]), rx, guardR)
+	default:
 		return "?"
 	}
-	mode, _ := strconv.Atoi(f[1])
-	lx, rx := []int{777, 777, 777}, []int{888, 888, 888}
-	if len(f) == 6 {
-		lx, rx = tr.UnInts(f[4]), tr.UnInts(f[5])
-	}
-	larr, lhs := window(tr.UnInts(f[2]), lx, guardL)
-	rarr, rhs := window(tr.UnInts(f[3]), rx, guardR)
 	var es []slice.Edit[int]
 	p := tr.Catch(func() {
 		if mode == 0 {
@@ -169,7 +199,7 @@ func ambiguous(l, r []int, mode int) bool {
 }
 
 func main() {
-	tr.Main("C11: every pair of sequences over 2 symbols to length 6 (quick) / 8 (thorough), over 3 symbols to length 4 / 5, over 2 keys x 2 payloads under the two key equivalences (v%2, v/2) to length 3 / 4; random pairs derived from a common base by dropping, inserting and overwriting runs (long common runs), over 2-4 symbols (heavy repetition), lengths to 60 (a few to 200), under ==, under key equivalences mod 2..4 and div 2..3, and (correspondence only, outside the precondition) under a non-transitive, an irreflexive and a non-symmetric relation, where the real code can panic and the model must predict it; and under a partial equivalence (3 related to nothing, as NaN under ==), which the theorems cover. Every input is a window into a larger array with guards in front and a spare capacity of 0..3 elements behind (sentinels, or elements of the alphabet). Non-trivial = a side repeats an element (ambiguous alignment); distinct = distinct input lines.",
+	tr.Main("C11: every pair of sequences over 2 symbols to length 6 (quick) / 8 (thorough), over 3 symbols to length 4 / 5, over 2 keys x 2 payloads under the two key equivalences (v%2, v/2) to length 3 / 4; random pairs derived from a common base by dropping, inserting and overwriting runs (long common runs), over 2-4 symbols (heavy repetition), lengths to 60 (a few to 200), under ==, under key equivalences mod 2..4 and div 2..3, and (correspondence only, outside the precondition) under a non-transitive, an irreflexive and a non-symmetric relation, where the real code can panic and the model must predict it; and under a partial equivalence (3 related to nothing, as NaN under ==), which the theorems cover. In the aliased family both arguments are windows of ONE array (identical, same start with different lengths, nested, shifted, overlapping, disjoint). Every other input is a window into a larger array with guards in front and a spare capacity of 0..3 elements behind (sentinels, or elements of the alphabet). Non-trivial = a side repeats an element (ambiguous alignment); distinct = distinct input lines.",
 		exec, func(g *tr.G) {
 			n := 0
 			// the spare capacity behind the two inputs: none at all, sentinels, or elements that
@@ -283,6 +313,77 @@ func main() {
 					emit(-2, l, r, 3, "exh-irreflexive")
 					emit(-3, l, r, 3, "exh-nonsymmetric")
 				}
+			}
+			// both arguments views of ONE array: every pair of windows of every array over 2
+			// symbols to length 4 (5), under == (the exported EditScript) and under a key
+			// equivalence (editScriptFunc), natural capacity and cap = len
+			kindOf := func(a, b, c, d int) string {
+				switch {
+				case a == c && b == d:
+					return "alias-identical"
+				case a == c:
+					return "alias-same-start"
+				case b <= c || d <= a:
+					return "alias-disjoint"
+				case (a <= c && d <= b) || (c <= a && b <= d):
+					return "alias-nested"
+				}
+				return "alias-overlap"
+			}
+			emitA := func(mode int, arr []int, a, b, c, d, capLen int) {
+				in := "A " + strconv.Itoa(mode) + " " + tr.Ints(arr) + " " + strconv.Itoa(a) + " " + strconv.Itoa(b) +
+					" " + strconv.Itoa(c) + " " + strconv.Itoa(d) + " " + strconv.Itoa(capLen)
+				out := g.Emit(in, ambiguous(arr[a:b], arr[c:d], mode), "aliased", kindOf(a, b, c, d))
+				if strings.HasPrefix(out, ". /") {
+					g.W.Count("alias-empty-script", 1)
+				}
+			}
+			na := 0
+			for _, arr := range allSeqs([]int{0, 1}, g.Scale(4, 5)) {
+				for a := 0; a <= len(arr); a++ {
+					for b := a; b <= len(arr); b++ {
+						for c := 0; c <= len(arr); c++ {
+							for d := c; d <= len(arr); d++ {
+								na++
+								emitA(0, arr, a, b, c, d, na%2)
+							}
+						}
+					}
+				}
+			}
+			for i := 0; i < g.Scale(3000, 60000); i++ {
+				nsym := g.R.Range(2, 4)
+				n := g.R.Range(1, 30)
+				arr := make([]int, n)
+				for j := range arr {
+					if j > 0 && g.R.Chance(1, 3) {
+						arr[j] = arr[j-1]
+					} else {
+						arr[j] = g.R.Intn(nsym)
+					}
+				}
+				a := g.R.Intn(n + 1)
+				b := g.R.Range(a, n)
+				c, d := a, b
+				switch g.R.Intn(5) {
+				case 0: // same start, different length (rhs := lhs[:k] or the other way round)
+					d = g.R.Range(c, n)
+				case 1: // identical window
+				case 2: // shifted by a little
+					c = g.R.Range(max(0, a-3), min(n, a+3))
+					d = g.R.Range(c, n)
+				default: // anything
+					c = g.R.Intn(n + 1)
+					d = g.R.Range(c, n)
+				}
+				mode := 0
+				if g.R.Chance(1, 3) {
+					mode = g.R.Range(2, 3)
+					for j := range arr {
+						arr[j] += mode * g.R.Intn(2) // payloads
+					}
+				}
+				emitA(mode, arr, a, b, c, d, g.R.Intn(2))
 			}
 			// random pairs from a common base
 			derive := func(base []int, nsym int) []int {
